@@ -255,3 +255,9 @@ Proof.
 Qed.
 Lemma slot_entries_app b1 b2 s : slot_entries (b1 ++ b2) s = slot_entries b1 s ++ slot_entries b2 s.
 Proof. unfold slot_entries. rewrite filter_app, map_app. reflexivity. Qed.
+
+(** without a sliding window the windowed operations are the plain ones *)
+Lemma kv_evict_none cfg kv0 b : window cfg = None -> kv_evict cfg kv0 b = kv0.
+Proof. intro H. unfold kv_evict. rewrite H. reflexivity. Qed.
+Lemma visible_c_none cfg kv0 s p : window cfg = None -> visible_c cfg kv0 s p = visible kv0 s p.
+Proof. intro H. unfold visible_c. rewrite H. reflexivity. Qed.
